@@ -5,8 +5,10 @@ strictly nearer") returns a nearest grid value, ties go right, grid values are f
 -/
 import Reamber.Model.Timing
 import Reamber.Spec.Timing
+import Reamber.Lemmas.Sort
 import Mathlib.Tactic.Linarith
 import Mathlib.Tactic.Ring
+import Mathlib.Tactic.FieldSimp
 import Mathlib.Algebra.Order.Field.Rat
 import Mathlib.Algebra.Order.Field.Basic
 
@@ -14,77 +16,14 @@ namespace Reamber.Timing
 
 /-! ### insertion sort -/
 
-section Isort
-variable {α : Type} (le : α → α → Bool)
-
-theorem isort_cons (a : α) (t : List α) : isort le (a :: t) = insertBy le a (isort le t) := rfl
-
-theorem insertBy_perm (x : α) (l : List α) : (insertBy le x l).Perm (x :: l) := by
-  induction l with
-  | nil => simp [insertBy]
-  | cons y ys ih =>
-    unfold insertBy
-    split
-    · exact List.Perm.refl _
-    · exact (List.Perm.cons y ih).trans (List.Perm.swap x y ys)
-
-theorem isort_perm (l : List α) : (isort le l).Perm l := by
-  induction l with
-  | nil => exact List.Perm.refl _
-  | cons a t ih =>
-    rw [isort_cons]
-    exact (insertBy_perm le a _).trans (List.Perm.cons a ih)
-
-theorem mem_isort {z : α} {l : List α} : z ∈ isort le l ↔ z ∈ l := (isort_perm le l).mem_iff
-
-theorem isort_length (l : List α) : (isort le l).length = l.length := (isort_perm le l).length_eq
-
-theorem pairwise_insertBy (total : ∀ a b, le a b = true ∨ le b a = true)
-    (trans : ∀ a b c, le a b = true → le b c = true → le a c = true) (x : α) {l : List α}
-    (h : l.Pairwise (fun a b => le a b = true)) : (insertBy le x l).Pairwise (fun a b => le a b = true) := by
-  induction l with
-  | nil => simp [insertBy]
-  | cons y ys ih =>
-    have hy := List.pairwise_cons.mp h
-    unfold insertBy
-    split
-    · rename_i hxy
-      refine List.pairwise_cons.mpr ⟨?_, h⟩
-      intro z hz
-      rcases List.mem_cons.mp hz with rfl | hz
-      · exact hxy
-      · exact trans _ _ _ hxy (hy.1 z hz)
-    · rename_i hxy
-      refine List.pairwise_cons.mpr ⟨?_, ih hy.2⟩
-      intro z hz
-      rcases List.mem_cons.mp ((insertBy_perm le x ys).mem_iff.mp hz) with rfl | hz
-      · rcases total z y with h1 | h1
-        · exact absurd h1 hxy
-        · exact h1
-      · exact hy.1 z hz
-
-/-- the models' `isort` returns an ascending list, for every total transitive comparison -/
-theorem isort_pairwise (total : ∀ a b, le a b = true ∨ le b a = true)
+/-- the models' `isort` returns an ascending list, for every total transitive comparison (`Lemmas/Sort.lean`) -/
+theorem isort_pairwise {α : Type} (le : α → α → Bool) (total : ∀ a b, le a b = true ∨ le b a = true)
     (trans : ∀ a b c, le a b = true → le b c = true → le a c = true) (l : List α) :
-    (isort le l).Pairwise (fun a b => le a b = true) := by
-  induction l with
-  | nil => exact List.Pairwise.nil
-  | cons a t ih => rw [isort_cons]; exact pairwise_insertBy le total trans a ih
+    (isort le l).Pairwise (fun a b => le a b = true) := isort_sorted ⟨total, trans⟩ l
 
-/-- sorting an already ascending list changes nothing (Python's `list.sort` on sorted input; stability) -/
-theorem isort_eq_self {l : List α} (h : l.Pairwise (fun a b => le a b = true)) : isort le l = l := by
-  induction l with
-  | nil => rfl
-  | cons a t ih =>
-    have ha := List.pairwise_cons.mp h
-    rw [isort_cons, ih ha.2]
-    cases t with
-    | nil => rfl
-    | cons y ys =>
-      unfold insertBy
-      rw [if_pos (ha.1 y (by simp))]
-
-end Isort
+/-- sorting an already ascending list changes nothing (Python's `list.sort` on sorted input) -/
+theorem isort_eq_self {α : Type} (le : α → α → Bool) {l : List α} (h : l.Pairwise (fun a b => le a b = true)) :
+    isort le l = l := isort_of_sorted h
 
 /-! ### the grid -/
 
@@ -124,12 +63,12 @@ theorem grid_asc (N : Nat) : (grid N).Pairwise (fun a b => a ≤ b) := by
   · intro a ha b hb
     simp only [List.mem_singleton] at hb
     rw [hb]
-    exact le_of_lt (gridPairs_bounds ((mem_isort _).mp ha)).2
+    exact le_of_lt (gridPairs_bounds (mem_isort.mp ha)).2
 
 theorem grid_bounds {N : Nat} {z : Rat} (h : z ∈ grid N) : 0 ≤ z ∧ z ≤ 1 := by
   unfold grid at h
   rcases List.mem_append.mp h with h | h
-  · have := gridPairs_bounds ((mem_isort _).mp h)
+  · have := gridPairs_bounds (mem_isort.mp h)
     exact ⟨this.1, le_of_lt this.2⟩
   · simp only [List.mem_singleton] at h
     rw [h]; exact ⟨by decide, le_refl _⟩
@@ -138,7 +77,7 @@ theorem one_mem_grid (N : Nat) : (1 : Rat) ∈ grid N := by simp [grid]
 
 theorem zero_mem_grid {N : Nat} (h : 0 < N) : (0 : Rat) ∈ grid N := by
   unfold grid
-  exact List.mem_append_left _ ((mem_isort _).mpr (zero_mem_gridPairs h))
+  exact List.mem_append_left _ (mem_isort.mpr (zero_mem_gridPairs h))
 
 /-- the last value of every grid is 1 -/
 theorem grid_getLast (N : Nat) : (grid N).getLast? = some 1 := by simp [grid]
@@ -396,5 +335,91 @@ theorem frac_snapOn_mem {g : Array Rat} (hg : GridOK g) (x : Rat) : frac (snapOn
 /-- **Snapping is idempotent.** -/
 theorem snapOn_idem {g : Array Rat} (hg : GridOK g) (x : Rat) : snapOn g (snapOn g x) = snapOn g x :=
   snapOn_fix hg.asc _ (frac_snapOn_mem hg x)
+
+/-! ### error bound: every `k/N` is a value of `grid N`, so a nearest value is within `1/(2N)` -/
+
+theorem div_mem_gridPairs {N k : Nat} (hk : k < N) : ((k : Rat) / (N : Rat)) ∈ gridPairs N := by
+  rcases Nat.eq_zero_or_pos k with rfl | hk0
+  · simpa using zero_mem_gridPairs (by omega : 0 < N)
+  · have hg : 0 < Nat.gcd k N := Nat.gcd_pos_of_pos_left _ hk0
+    obtain ⟨n, hn⟩ := Nat.gcd_dvd_left k N
+    obtain ⟨d, hd⟩ := Nat.gcd_dvd_right k N
+    have hcop : Nat.gcd n d = 1 := by
+      have := Nat.coprime_div_gcd_div_gcd hg
+      rwa [Nat.div_eq_of_eq_mul_right hg hn, Nat.div_eq_of_eq_mul_right hg hd] at this
+    have hn0 : 0 < n := by
+      rcases Nat.eq_zero_or_pos n with h | h
+      · rw [h] at hn; omega
+      · exact h
+    have hnd : n < d := by
+      have : Nat.gcd k N * n < Nat.gcd k N * d := by rw [← hn, ← hd]; exact hk
+      exact Nat.lt_of_mul_lt_mul_left this
+    have hdN : d ≤ N := by
+      rw [hd]; exact Nat.le_mul_of_pos_left d hg
+    unfold gridPairs
+    simp only [List.mem_flatMap, List.mem_range, List.mem_filterMap]
+    refine ⟨d - 1, by omega, n, by omega, ?_⟩
+    have hd1 : d - 1 + 1 = d := by omega
+    rw [hd1]
+    have hcond : ¬ ((n = 0 ∧ d ≠ 1) ∨ Nat.gcd n d ≠ 1) := by
+      intro h; rcases h with h | h
+      · omega
+      · exact h hcop
+    rw [if_neg hcond]
+    congr 1
+    have hgq : ((Nat.gcd k N : Nat) : Rat) ≠ 0 := by exact_mod_cast (ne_of_gt hg)
+    have hkq : (k : Rat) = ((Nat.gcd k N : Nat) : Rat) * (n : Rat) := by exact_mod_cast hn
+    have hNq : (N : Rat) = ((Nat.gcd k N : Nat) : Rat) * (d : Rat) := by exact_mod_cast hd
+    rw [hkq, hNq, mul_div_mul_left _ _ hgq]
+
+theorem div_mem_grid {N k : Nat} (hk : k ≤ N) (hN : 0 < N) : ((k : Rat) / (N : Rat)) ∈ grid N := by
+  rcases Nat.eq_or_lt_of_le hk with rfl | hlt
+  · have : ((k : Nat) : Rat) ≠ 0 := by exact_mod_cast (ne_of_gt hN)
+    rw [div_self this]; exact one_mem_grid k
+  · unfold grid
+    exact List.mem_append_left _ (mem_isort.mpr (div_mem_gridPairs hlt))
+
+theorem rabs_le_of {x b : Rat} (h1 : x ≤ b) (h2 : -b ≤ x) : rabs x ≤ b := by
+  unfold rabs; split <;> linarith
+
+theorem rabs_nonneg (x : Rat) : 0 ≤ rabs x := by unfold rabs; split <;> linarith
+
+/-- **Error bound**: a nearest value of `grid N` to a number `r ∈ [0, 1)` is within `1/(2N)` of it. -/
+theorem nearest_grid_err {N : Nat} (hN : 0 < N) {r y : Rat} (hr0 : 0 ≤ r) (hr1 : r < 1)
+    (hy : IsNearest (grid N) r y) : rabs (y - r) ≤ 1 / (2 * (N : Rat)) := by
+  have hNq : (0 : Rat) < (N : Rat) := by exact_mod_cast hN
+  -- k = ⌊r·N⌋
+  have hk0 : 0 ≤ (r * N).floor := Rat.le_floor_iff.mpr (by simpa using mul_nonneg hr0 hNq.le)
+  obtain ⟨k, hk⟩ := Int.eq_ofNat_of_zero_le hk0
+  have hfl := Rat.floor_le (r * N)
+  have hfu := Rat.lt_floor_add_one (r * N)
+  rw [hk] at hfl hfu
+  push_cast at hfl hfu
+  have hkN : k < N := by
+    have : (k : Rat) < (N : Rat) := by nlinarith
+    exact_mod_cast this
+  have h1 := hy.2 _ (div_mem_grid (le_of_lt hkN) hN)
+  have h2 := hy.2 _ (div_mem_grid (k := k + 1) (by omega) hN)
+  have ha : (k : Rat) / N ≤ r := by rw [div_le_iff₀ hNq]; exact hfl
+  have hb : r < ((k + 1 : Nat) : Rat) / N := by rw [lt_div_iff₀ hNq]; push_cast; exact hfu
+  rw [rabs_of_nonpos (show (k : Rat) / N - r ≤ 0 by linarith)] at h1
+  rw [rabs_of_nonneg (show 0 ≤ ((k + 1 : Nat) : Rat) / N - r by linarith)] at h2
+  have hsum : ((k + 1 : Nat) : Rat) / N - (k : Rat) / N = 1 / N := by push_cast; field_simp; ring
+  have h12 : (1 : Rat) / (2 * N) = (1 / N) / 2 := by field_simp
+  rw [h12]
+  linarith
+
+/-- **`Snapper.snap` moves a beat by at most `1/(2N)`** (N = 96: 1/192 beat). -/
+theorem snapOn_grid_err {N : Nat} (hN : 0 < N) (x : Rat) :
+    rabs (snapOn (grid N).toArray x - x) ≤ 1 / (2 * (N : Rat)) := by
+  have hg := gridOK_grid hN
+  have hn := snapOn_nearest hg.asc x ⟨1, hg.one_mem, le_of_lt (frac_lt_one x)⟩
+  have := nearest_grid_err hN (frac_nonneg x) (frac_lt_one x) hn
+  have e : snapOn (grid N).toArray x - (ffloor x : Rat) - frac x = snapOn (grid N).toArray x - x := by
+    have := frac_add_floor x; linarith
+  rwa [e] at this
+
+theorem snapOn_eq_self_iff {g : Array Rat} (hg : GridOK g) (x : Rat) : snapOn g x = x ↔ frac x ∈ g.toList :=
+  ⟨fun h => by have := frac_snapOn_mem hg x; rwa [h] at this, snapOn_fix hg.asc x⟩
 
 end Reamber.Timing
